@@ -249,6 +249,50 @@ theorem write_rows_then_read_ints (c : Cfg) (hb : 39 ≤ c.buf) (tuple : Bool) (
           = rows.flatten.map (fun p => Reader.Res.out (.val (.int p.2))) ++ [.out (.bool true)] :=
   C09Bridge.write_rows_then_read_ints c hb tuple rows hfit
 
+/-- Every read plan `gs` over the written leaves — single `read::<T>()` (`char` for one-byte words), tuple reads of any
+    arity, `read_vec(n)` of rows of one shape — returns the written values grouped as the plan groups them, then `is_eof()`
+    is true. `ht` (implied by `sepOK`): the text splits at whitespace into the leaf texts. -/
+theorem write_then_read_plan (c : Cfg) (hb : 39 ≤ c.buf) (ops : List Op) (hv : Op.validAll ops = true)
+    (ht : tokenize (txt (specOps ops)) = (opsLeaves ops).map leafText)
+    (gs : List IoRT.Grp) (hg : ∀ g ∈ gs, g.okB = true)
+    (hl : (gs.flatMap IoRT.Grp.leaves).map Prod.fst = opsLeaves ops) :
+    ∃ s, runOps c ops WState.init = .ok s ∧ (drop s).sink = specOps ops ∧
+      ∀ (src : List Reader.Event), Reader.SrcOk src → Reader.srcBytes src = txt (drop s).sink →
+      ∀ (BUF : Nat), 0 < BUF → ∀ (fuel : Nat), (Reader.srcBytes src).length < fuel →
+        Reader.runScript fuel (IoRT.script gs) (Reader.init BUF src) = IoRT.expected gs :=
+  C09Bridge.write_then_read_plan c hb ops hv ht gs hg hl
+
+/-- The read-back procedure of the harness (`IoRT.planOps alt`) is such a plan for every valid `sepOK` script. -/
+theorem write_then_read_harness_plan (c : Cfg) (hb : 39 ≤ c.buf) (ops : List Op) (hv : Op.validAll ops = true)
+    (hs : sepOK ops = true) (alt : Bool) :
+    ∃ s, runOps c ops WState.init = .ok s ∧ (drop s).sink = specOps ops ∧
+      ∀ (src : List Reader.Event), Reader.SrcOk src → Reader.srcBytes src = txt (drop s).sink →
+      ∀ (BUF : Nat), 0 < BUF → ∀ (fuel : Nat), (Reader.srcBytes src).length < fuel →
+        Reader.runScript fuel (IoRT.script (IoRT.planOps alt ops)) (Reader.init BUF src)
+          = IoRT.expected (IoRT.planOps alt ops) :=
+  C09Bridge.write_then_read_harness_plan c hb ops hv hs alt
+
+/-- What `drv_writer` prints as `M` for an `r` line (`IoRT.readBack`: Reader model on the Writer model's sink under the
+    harness schedule `rc`) is what it prints as `S`, for every eligible script. -/
+theorem readback_driver (c : Cfg) (hb : 39 ≤ c.buf) (ops : List Op) (hv : Op.validAll ops = true)
+    (he : IoRT.eligible ops = true) (rbuf : Nat) (hr : 0 < rbuf) (rc : Nat) (alt : Bool) :
+    ∃ s, runOps c ops WState.init = .ok s ∧
+      IoRT.readBack rbuf rc alt ops (txt (drop s).sink) = IoRT.expected (IoRT.planOps alt ops) :=
+  C09Bridge.readback_driver c hb ops hv he rbuf hr rc alt
+
+/-- Characters written with `write_char`: every non-whitespace byte comes back from one `read::<char>()`. -/
+theorem write_chars_then_read (c : Cfg) (hb : 39 ≤ c.buf) (codes : List Nat) :
+    ∃ s, runOps c (IoBridge.charOps codes) WState.init = .ok s ∧ (drop s).sink = specOps (IoBridge.charOps codes) ∧
+      txt (drop s).sink = codes.map UInt8.ofNat ∧
+      ∀ (src : List Reader.Event), Reader.SrcOk src → Reader.srcBytes src = txt (drop s).sink →
+      ∀ (BUF : Nat), 0 < BUF → ∀ (fuel : Nat), (Reader.srcBytes src).length < fuel →
+        Reader.runScript fuel
+            (((codes.map UInt8.ofNat).filter (fun b => !Reader.isWs b)).map (fun _ => Reader.Op.read .chr) ++ [.eof])
+            (Reader.init BUF src)
+          = ((codes.map UInt8.ofNat).filter (fun b => !Reader.isWs b)).map (fun b => Reader.Res.out (.val (.chr b)))
+              ++ [.out (.bool true)] :=
+  C09Bridge.write_chars_then_read c hb codes
+
 /-- Lines written with `outln!(line)`: `read_line()` returns each verbatim, then `None`; `read_lines()` all. -/
 theorem write_lines_then_read (c : Cfg) (hb : 39 ≤ c.buf) (ls : List ByteArray)
     (hok : ∀ l ∈ ls, IoBridge.LineOK (txt l)) :
@@ -308,5 +352,11 @@ example : (opsLeaves demoOps).map IoBridge.expect =
     [.out (.val (.int (2 ^ 128 - 1))), .out (.val (.int (-(2 ^ 127)))), .out (.val (.int (-128))),
      .out (.val (.str "word".toUTF8.data.toList)), .out (.val (.int 65535)), .out (.val (.int 0)),
      .out (.val (.int (-1))), .out (.val (.str "x".toUTF8.data.toList))] := by decide
+
+-- the harness read-back procedure run on the models (what `drv_writer` does for `r` lines), `demoOps`, `alt` style
+example : IoRT.eligible demoOps = true := by decide +kernel
+example : ∃ s, runOps ⟨39, true⟩ demoOps WState.init = .ok s ∧
+    IoRT.readBack 65536 3 true demoOps (txt (drop s).sink) = IoRT.expected (IoRT.planOps true demoOps) :=
+  readback_driver ⟨39, true⟩ (by decide) demoOps (by decide) (by decide +kernel) 65536 (by decide) 3 true
 
 end Rlib.C09
